@@ -8,16 +8,17 @@
 P="$1"; [ "$P" != "-" ] && P="$(readlink -f "$P")"; ID="$2"; TIER="${3:-quick}"; SEED="${4:-1}"
 export GOFLAGS=-mod=mod GOPROXY=off GOSUMDB=off GOTOOLCHAIN=local
 VERIF="$(cd "$(dirname "$0")/.." && pwd)"
+SIM="${VERIF_SIM:-$VERIF/sim}"   # a snapshot of the simulator source may be given (long batch runs while sim/ is being edited)
 W=$(mktemp -d /tmp/ev.XXXXXX)
 trap 'git -C /repo worktree remove --force "$W/repo" >/dev/null 2>&1; rm -rf "$W"; git -C /repo worktree prune' EXIT
 git -C /repo worktree add -q --detach "$W/repo" HEAD || exit 2
 if [ "$P" != "-" ]; then git -C "$W/repo" apply "$P" || { echo "PATCH-DOES-NOT-APPLY $P"; exit 3; }; fi
 mkdir -p "$W/out" "$W/bin"
 cp "$VERIF/known_findings.json" "$W/out/"
-sed "s#=> /repo#=> $W/repo#" "$VERIF/sim/go.mod" > "$W/go.mod"; cp /repo/go.sum "$W/go.sum"
-( cd "$VERIF/sim" && go build -modfile="$W/go.mod" -tags verif -o "$W/bin/simcheck" ./cmd/simcheck ) 2> "$W/build.log" || { echo "HARNESS-FAULT build failed"; tail -20 "$W/build.log"; exit 2; }
+sed "s#=> /repo#=> $W/repo#" "$SIM/go.mod" > "$W/go.mod"; cp /repo/go.sum "$W/go.sum"
+( cd "$SIM" && go build -modfile="$W/go.mod" -tags verif -o "$W/bin/simcheck" ./cmd/simcheck ) 2> "$W/build.log" || { echo "HARNESS-FAULT build failed"; tail -20 "$W/build.log"; exit 2; }
 if [ "$ID" = C25 ]; then
-  ( cd "$VERIF/sim" && go build -race -modfile="$W/go.mod" -tags verif -o "$W/bin/simcheck-race" ./cmd/simcheck ) 2>> "$W/build.log" || { echo "HARNESS-FAULT race build failed"; tail -20 "$W/build.log"; exit 2; }
+  ( cd "$SIM" && go build -race -modfile="$W/go.mod" -tags verif -o "$W/bin/simcheck-race" ./cmd/simcheck ) 2>> "$W/build.log" || { echo "HARNESS-FAULT race build failed"; tail -20 "$W/build.log"; exit 2; }
 fi
 VERIF_SEED=$SEED timeout -k 10 14400 "$W/bin/simcheck" -prop "$ID" -tier "$TIER" -verif "$W/out" ${EVAL_WORKERS:+-workers $EVAL_WORKERS} 2>&1 | grep -E "^(VIOLATION|violation|HARNESS|done|KNOWN|also|note)"
 rc=${PIPESTATUS[0]}
